@@ -60,7 +60,7 @@ var props = map[string]propCfg{
 		Assumptions: stdAssumptions,
 	},
 	"C10": {
-		Variant: "stmt", Quick: 35 * time.Second, Thorough: 12 * time.Minute, Level: "exploration", DetSample: 8,
+		Variant: "stmt", Quick: 55 * time.Second, Thorough: 12 * time.Minute, Level: "exploration", DetSample: 8,
 		Rule:        "one case = one seeded GMW session of N in 2..5 parties on the simulated network: circuit generated (XOR/XNOR/AND/INV, 1..12-bit inputs, up to 300 gates, AND-heavy shapes with many levels and batch sizes not multiple of 64) or compiled from a small N-party MPCL program for the GMW target; inputs zero/ones/single-bit/random; a harness Pool.Get(n) with n in {1,63,64,65,100,127,129,1000,4095,4097} at every party before Run; in half of the cases the triple pool's tuning knobs are set (low-water mark 0..8 words, batches of 64..512 triples; build-time knobs of the overlay, default = the shipped 4096 words / 4096 / 8192 triples) so that the producer/consumer refill protocol runs in every session; start delays before Join, Connect and Run, dial latency, socket capacity, fragmentation, latency and every interleaving decision of the parties' main, accept, triple-producer and connection-writer tasks from the tape; oracle = truth-table evaluation and the triple relation on every bit; non-trivial = more than 4 task switches; distinct = distinct SHA-256 of the event log",
 		Components:  map[string]string{"gmw.Network/TriplePool/Peer, p2p.Conn, ot.CO, ot.IKNP SendBits/ReceiveBits": "real code (rewritten go/chan/sync/net/crypto-rand)", "TCP": "simulated (simnet)", "crypto/rand": "per-party seeded DRBG", "reference": "harness truth-table evaluator"},
 		Assumptions: stdAssumptions,
